@@ -106,9 +106,11 @@ impl CoseRecipient {
         context: EncryptionContext,
         external_aad: &[u8],
         cipher: F,
-    ) -> Result<Vec<u8>, E>
+    ) ->« (r:» Result<Vec<u8>, E>«)»
     where
-        F: FnOnce(&[u8], &[u8]) -> Result<Vec<u8>, E>,
+        F: FnOnce(&[u8], &[u8]) -> Result<Vec<u8>, E>,«
+        requires self.ciphertext is Some, is_recipient_ctx(context), prot_encodable(self.protected), forall |a: &[u8], b: &[u8]| call_requires(cipher, (a, b)),
+        ensures exists |c: &[u8], d: &[u8]| c@ == self.ciphertext->0@ && d@ == enc_aad(context, self.protected, external_aad@) && call_ensures(cipher, (c, d), r),»
     {
         let ct = self.ciphertext.as_ref().unwrap(/* safe: documented */);
         match context {
@@ -186,9 +188,12 @@ impl CoseRecipientBuilder {
         plaintext: &[u8],
         external_aad: &[u8],
         cipher: F,
-    ) -> Self
+    ) ->« (r:» Self«)»
     where
-        F: FnOnce(&[u8], &[u8]) -> Vec<u8>,
+        F: FnOnce(&[u8], &[u8]) -> Vec<u8>,«
+        requires is_recipient_ctx(context), prot_encodable(self.inner().protected), forall |a: &[u8], b: &[u8]| call_requires(cipher, (a, b)),
+        ensures exists |pt: &[u8], d: &[u8], out: Vec<u8>| pt@ == plaintext@ && d@ == enc_aad(context, self.inner().protected, external_aad@) && call_ensures(cipher, (pt, d), out)
+            && r.inner() == (CoseRecipient { ciphertext: Some(out), ..self.inner() }),»
     {
         let aad = self.aad(context, external_aad);
         self.ciphertext(cipher(plaintext, &aad))
@@ -207,10 +212,17 @@ impl CoseRecipientBuilder {
         plaintext: &[u8],
         external_aad: &[u8],
         cipher: F,
-    ) -> Result<Self, E>
+    ) ->« (r:» Result<Self, E>«)»
     where
-        F: FnOnce(&[u8], &[u8]) -> Result<Vec<u8>, E>,
-    {
+        F: FnOnce(&[u8], &[u8]) -> Result<Vec<u8>, E>,«
+        requires is_recipient_ctx(context), prot_encodable(self.inner().protected), forall |a: &[u8], b: &[u8]| call_requires(cipher, (a, b)),
+        ensures exists |pt: &[u8], d: &[u8], out: Result<Vec<u8>, E>| pt@ == plaintext@ && d@ == enc_aad(context, self.inner().protected, external_aad@) && call_ensures(cipher, (pt, d), out)
+            && match out {
+                Ok(o) => r matches Ok(b) && b.inner() == (CoseRecipient { ciphertext: Some(o), ..self.inner() }),
+                Err(e) => r matches Err(e2) && e2 == e,
+            },»
+    {«
+        broadcast use crate::vprelude::axiom_question_mark_uses_from;»
         let aad = self.aad(context, external_aad);
         Ok(self.ciphertext(cipher(plaintext, &aad)?))
     }
@@ -222,7 +234,9 @@ impl CoseRecipientBuilder {
     ///
     /// This function will panic if the `context` parameter does not refer to a recipient context.
     #[must_use]
-    fn aad(&self, context: EncryptionContext, external_aad: &[u8]) -> Vec<u8> {
+    fn aad(&self, context: EncryptionContext, external_aad: &[u8]) ->« (r:» Vec<u8>«)
+        requires is_recipient_ctx(context), prot_encodable(self.inner().protected),
+        ensures r@ == enc_aad(context, self.inner().protected, external_aad@),» {
         match context {
             EncryptionContext::EncRecipient
             | EncryptionContext::MacRecipient
@@ -300,9 +314,11 @@ impl CoseEncrypt {
     /// # Panics
     ///
     /// This function will panic if no `ciphertext` is available.
-    pub fn decrypt<F, E>(&self, external_aad: &[u8], cipher: F) -> Result<Vec<u8>, E>
+    pub fn decrypt<F, E>(&self, external_aad: &[u8], cipher: F) ->« (r:» Result<Vec<u8>, E>«)»
     where
-        F: FnOnce(&[u8], &[u8]) -> Result<Vec<u8>, E>,
+        F: FnOnce(&[u8], &[u8]) -> Result<Vec<u8>, E>,«
+        requires self.ciphertext is Some, prot_encodable(self.protected), forall |a: &[u8], b: &[u8]| call_requires(cipher, (a, b)),
+        ensures exists |c: &[u8], d: &[u8]| c@ == self.ciphertext->0@ && d@ == enc_aad(EncryptionContext::CoseEncrypt, self.protected, external_aad@) && call_ensures(cipher, (c, d), r),»
     {
         let ct = self.ciphertext.as_ref().unwrap(/* safe: documented */);
         let aad = enc_structure_data(
@@ -361,9 +377,12 @@ impl CoseEncryptBuilder {
     /// from the plaintext and combined AAD (in that order) as per RFC 8152 section 5.3.  Any
     /// protected header values should be set before using this method.
     #[must_use]
-    pub fn create_ciphertext<F>(self, plaintext: &[u8], external_aad: &[u8], cipher: F) -> Self
+    pub fn create_ciphertext<F>(self, plaintext: &[u8], external_aad: &[u8], cipher: F) ->« (r:» Self«)»
     where
-        F: FnOnce(&[u8], &[u8]) -> Vec<u8>,
+        F: FnOnce(&[u8], &[u8]) -> Vec<u8>,«
+        requires prot_encodable(self.inner().protected), forall |a: &[u8], b: &[u8]| call_requires(cipher, (a, b)),
+        ensures exists |pt: &[u8], d: &[u8], out: Vec<u8>| pt@ == plaintext@ && d@ == enc_aad(EncryptionContext::CoseEncrypt, self.inner().protected, external_aad@) && call_ensures(cipher, (pt, d), out)
+            && r.inner() == (CoseEncrypt { ciphertext: Some(out), ..self.inner() }),»
     {
         let aad = enc_structure_data(
             EncryptionContext::CoseEncrypt,
@@ -381,10 +400,17 @@ impl CoseEncryptBuilder {
         plaintext: &[u8],
         external_aad: &[u8],
         cipher: F,
-    ) -> Result<Self, E>
+    ) ->« (r:» Result<Self, E>«)»
     where
-        F: FnOnce(&[u8], &[u8]) -> Result<Vec<u8>, E>,
-    {
+        F: FnOnce(&[u8], &[u8]) -> Result<Vec<u8>, E>,«
+        requires prot_encodable(self.inner().protected), forall |a: &[u8], b: &[u8]| call_requires(cipher, (a, b)),
+        ensures exists |pt: &[u8], d: &[u8], out: Result<Vec<u8>, E>| pt@ == plaintext@ && d@ == enc_aad(EncryptionContext::CoseEncrypt, self.inner().protected, external_aad@) && call_ensures(cipher, (pt, d), out)
+            && match out {
+                Ok(o) => r matches Ok(b) && b.inner() == (CoseEncrypt { ciphertext: Some(o), ..self.inner() }),
+                Err(e) => r matches Err(e2) && e2 == e,
+            },»
+    {«
+        broadcast use crate::vprelude::axiom_question_mark_uses_from;»
         let aad = enc_structure_data(
             EncryptionContext::CoseEncrypt,
             self.0.protected.clone(),
@@ -462,9 +488,11 @@ impl CoseEncrypt0 {
     /// # Panics
     ///
     /// This function will panic if no `ciphertext` is available.
-    pub fn decrypt<F, E>(&self, external_aad: &[u8], cipher: F) -> Result<Vec<u8>, E>
+    pub fn decrypt<F, E>(&self, external_aad: &[u8], cipher: F) ->« (r:» Result<Vec<u8>, E>«)»
     where
-        F: FnOnce(&[u8], &[u8]) -> Result<Vec<u8>, E>,
+        F: FnOnce(&[u8], &[u8]) -> Result<Vec<u8>, E>,«
+        requires self.ciphertext is Some, prot_encodable(self.protected), forall |a: &[u8], b: &[u8]| call_requires(cipher, (a, b)),
+        ensures exists |c: &[u8], d: &[u8]| c@ == self.ciphertext->0@ && d@ == enc_aad(EncryptionContext::CoseEncrypt0, self.protected, external_aad@) && call_ensures(cipher, (c, d), r),»
     {
         let ct = self.ciphertext.as_ref().unwrap(/* safe: documented */);
         let aad = enc_structure_data(
@@ -523,9 +551,12 @@ impl CoseEncrypt0Builder {
     /// from the plaintext and combined AAD (in that order) as per RFC 8152 section 5.3.  Any
     /// protected header values should be set before using this method.
     #[must_use]
-    pub fn create_ciphertext<F>(self, plaintext: &[u8], external_aad: &[u8], cipher: F) -> Self
+    pub fn create_ciphertext<F>(self, plaintext: &[u8], external_aad: &[u8], cipher: F) ->« (r:» Self«)»
     where
-        F: FnOnce(&[u8], &[u8]) -> Vec<u8>,
+        F: FnOnce(&[u8], &[u8]) -> Vec<u8>,«
+        requires prot_encodable(self.inner().protected), forall |a: &[u8], b: &[u8]| call_requires(cipher, (a, b)),
+        ensures exists |pt: &[u8], d: &[u8], out: Vec<u8>| pt@ == plaintext@ && d@ == enc_aad(EncryptionContext::CoseEncrypt0, self.inner().protected, external_aad@) && call_ensures(cipher, (pt, d), out)
+            && r.inner() == (CoseEncrypt0 { ciphertext: Some(out), ..self.inner() }),»
     {
         let aad = enc_structure_data(
             EncryptionContext::CoseEncrypt0,
@@ -543,10 +574,17 @@ impl CoseEncrypt0Builder {
         plaintext: &[u8],
         external_aad: &[u8],
         cipher: F,
-    ) -> Result<Self, E>
+    ) ->« (r:» Result<Self, E>«)»
     where
-        F: FnOnce(&[u8], &[u8]) -> Result<Vec<u8>, E>,
-    {
+        F: FnOnce(&[u8], &[u8]) -> Result<Vec<u8>, E>,«
+        requires prot_encodable(self.inner().protected), forall |a: &[u8], b: &[u8]| call_requires(cipher, (a, b)),
+        ensures exists |pt: &[u8], d: &[u8], out: Result<Vec<u8>, E>| pt@ == plaintext@ && d@ == enc_aad(EncryptionContext::CoseEncrypt0, self.inner().protected, external_aad@) && call_ensures(cipher, (pt, d), out)
+            && match out {
+                Ok(o) => r matches Ok(b) && b.inner() == (CoseEncrypt0 { ciphertext: Some(o), ..self.inner() }),
+                Err(e) => r matches Err(e2) && e2 == e,
+            },»
+    {«
+        broadcast use crate::vprelude::axiom_question_mark_uses_from;»
         let aad = enc_structure_data(
             EncryptionContext::CoseEncrypt0,
             self.0.protected.clone(),
@@ -564,11 +602,30 @@ pub enum EncryptionContext {
     EncRecipient,
     MacRecipient,
     RecRecipient,
+}«
+use crate::vprelude::*;
+use crate::header::{prot_slot, prot_encodable};
+pub open spec fn enc_ctx_text(c: EncryptionContext) -> Seq<char> {
+    match c {
+        EncryptionContext::CoseEncrypt => "Encrypt"@, EncryptionContext::CoseEncrypt0 => "Encrypt0"@, EncryptionContext::EncRecipient => "Enc_Recipient"@,
+        EncryptionContext::MacRecipient => "Mac_Recipient"@, EncryptionContext::RecRecipient => "Rec_Recipient"@,
+    }
 }
+pub open spec fn is_recipient_ctx(c: EncryptionContext) -> bool {
+    c is EncRecipient || c is MacRecipient || c is RecRecipient
+}
+/// RFC 8152 section 5.3 Enc_structure
+pub open spec fn enc_structure(context: EncryptionContext, protected: Seq<u8>, aad: Seq<u8>) -> CV {
+    CV::Array(seq![CV::Text(enc_ctx_text(context)), CV::Bytes(protected), CV::Bytes(aad)])
+}
+pub open spec fn enc_aad(context: EncryptionContext, protected: ProtectedHeader, aad: Seq<u8>) -> Seq<u8> {
+    crate::vprelude::enc(enc_structure(context, prot_slot(protected), aad))
+}»
 
 impl EncryptionContext {
     /// Return the context string as per RFC 8152 section 5.3.
-    fn text(&self) -> &'static str {
+    fn text(&self) ->« (r:» &'static str«)
+        ensures r@ == enc_ctx_text(*self)» {
         match self {
             EncryptionContext::CoseEncrypt => "Encrypt",
             EncryptionContext::CoseEncrypt0 => "Encrypt0",
@@ -593,12 +650,20 @@ pub fn enc_structure_data(
     context: EncryptionContext,
     protected: ProtectedHeader,
     external_aad: &[u8],
-) -> Vec<u8> {
+) ->« (r:» Vec<u8>«)
+    requires prot_encodable(protected),
+    ensures r@ == enc_aad(context, protected, external_aad@),» {
     let arr = vec![
         Value::Text(context.text().to_owned()),
         protected.cbor_bstr().expect("failed to serialize header"), // safe: always serializable
         Value::Bytes(external_aad.to_vec()),
-    ];
+    ];«
+    proof {
+        reveal_with_fuel(vv, 3);
+        let want = enc_structure(context, prot_slot(protected), external_aad@);
+        assert(arr@[2] matches Value::Bytes(b) && b@ =~= external_aad@);
+        assert(vv(Value::Array(arr))->Array_0 =~= want->Array_0);
+    }»
 
     let mut data = Vec::new();
     crate::vprelude::into_writer_vec(&Value::Array(arr), &mut data).unwrap(); // safe: always serializable
